@@ -29,7 +29,7 @@ def main():
     if sel:
         names = [n for n in names if any(n.startswith(s) for s in sel)]
     rc, out = sh('git status --porcelain --untracked-files=no', TARGET)
-    if out.strip():
+    if rc == 0 and out.strip():
         print(TARGET + ' is not clean, refusing:', out)
         return 2
     summary = {}
@@ -61,7 +61,9 @@ def main():
                 if rcc == 1 and cid == own:
                     break
         finally:
-            sh('git checkout -- .', TARGET)
+            rcr, _ = sh('git checkout -- .', TARGET)
+            if rcr:
+                sh('git apply -R %s || git apply -R -C1 %s' % (patch, patch), TARGET)      # TARGET is a plain copy, not a work tree
         caught = [c for c, r in res.items() if r['exit'] == 1]
         summary[n] = {'checks': res, 'caught_by': caught, 'wall_s': round(time.time() - t0, 1)}
         json.dump(summary, open(sp + '.partial', 'w'), indent=1, sort_keys=True)
